@@ -29,12 +29,12 @@ Proof. intros loc x l a b [H|[]]. inversion H. Qed.
 
 (* ---- the conforming set messages as numeric_set instances ---- *)
 Lemma conf_numeric : forall k e cb loc old a,
-  elem_cb k = Some cb -> env_ok e k -> val_ok k old -> conforming e k [a] ->
+  elem_cb k = Some cb -> env_ok e k -> val_ok k old -> (k = KAI -> char_range old) -> conforming e k [a] ->
   (exists mkb v, arg_val a = Some v /\
      numeric_set e loc old (kind_key k) (event_arg k) mkb v (cb e loc old [a])) \/
   (exists s i, a = ASy s /\ symbol_index (p_map e) s = Some i /\ cb = rOptionCb /\ event_arg k = Ai).
 Proof.
-  intros k e cb loc old a Hcb Henv Hold Hc.
+  intros k e cb loc old a Hcb Henv Hold Hch Hc.
   inversion Hc; subst; inversion Hcb; subst cb; cbn [kind_key event_arg].
   - left. destruct Henv. eexists _, _. split; [reflexivity|]. apply NS_param; assumption.
   - left. eexists _, _. split; [reflexivity|]. apply NS_paramI.
@@ -42,7 +42,7 @@ Proof.
   - left. eexists _, _. split; [reflexivity|]. apply NS_option_i.
   - left. eexists _, _. split; [reflexivity|]. apply NS_option_c.
   - right. eexists _, _. repeat split; try eassumption; reflexivity.
-  - left. destruct Henv. eexists _, _. split; [reflexivity|]. apply NS_arrayI; assumption.
+  - left. destruct Henv. eexists _, _. split; [reflexivity|]. apply NS_arrayI; try assumption. exact (Hch eq_refl).
   - left. destruct Henv. eexists _, _. split; [reflexivity|]. apply NS_paramF; assumption.
   - left. eexists _, _. split; [reflexivity|]. apply NS_option_i.
   - left. eexists _, _. split; [reflexivity|]. apply NS_option_c.
@@ -95,11 +95,12 @@ Proof.
     + exact (char_stored KP e cb loc old args st o (or_introl eq_refl) Hcb Hch H).
     + exact (char_stored KAI e cb loc old args st o (or_intror eq_refl) Hcb Hch H).
   - intros l a b Hi.
+    assert (HchA : k = KAI -> char_range old) by (intro EkA; subst k; exact Hch).
     destruct (conforming_shape e k args Hc) as [E|[x E]]; subst args.
     + exfalso.
       destruct k; inversion Hcb; subst cb; cbn in H; inversion H; subst;
         exact (query_no_event _ _ _ _ _ Hi).
-    + destruct (conf_numeric k e cb loc old x Hcb Henv Hv Hc) as [(mkb & v & _ & NS)|(s & i & Ex & Hs & Ecb & Ek)].
+    + destruct (conf_numeric k e cb loc old x Hcb Henv Hv HchA Hc) as [(mkb & v & _ & NS)|(s & i & Ex & Hs & Ecb & Ek)].
       * destruct (numeric_set_spec _ _ _ _ _ _ _ _ NS) as (res & Er & SP).
         rewrite H in Er. inversion Er; subst res.
         exact (set_spec_event _ _ _ _ _ _ _ _ _ _ _ _ _ SP Hi).
@@ -113,6 +114,18 @@ Qed.
 Lemma arg_val_event_arg : forall k v, arg_val (event_arg k v) = Some v.
 Proof. intros k v. destruct k; reflexivity. Qed.
 
+Lemma cb_cur_char : forall k e cb loc cur args,
+  elem_cb k = Some cb -> args <> [] -> val_ok k cur ->
+  exists cur', (k = KAI -> char_range cur') /\ val_ok k cur' /\
+    forall st o, cb e loc cur' args = Some (st, o) -> exists o', cb e loc cur args = Some (st, o').
+Proof.
+  intros k e cb loc cur args Hcb Hne Hv.
+  destruct k; try discriminate; inversion Hcb; subst cb;
+    try (exists cur; split; [intro Ek; discriminate Ek|split; [exact Hv|intros st o E; exists o; exact E]]).
+  exists 0. split; [intros _; exact char_range_0|]. split; [exact I|].
+  intros st o E. exact (rArrayICb_elem_stored e loc 0 cur args st o E Hne).
+Qed.
+
 Lemma elem_replay : forall k e cb loc cur v,
   elem_cb k = Some cb -> env_ok e k -> val_ok k cur -> stable e k v ->
   in_spec k [event_arg k v] = true /\ conforming e k [event_arg k v] /\
@@ -122,10 +135,15 @@ Proof.
   assert (Hc : conforming e k [event_arg k v]).
   { destruct k; inversion Hcb; cbn [event_arg]; constructor; assumption. }
   split; [destruct k; inversion Hcb; reflexivity|]. split; [exact Hc|].
-  destruct (conf_numeric k e cb loc cur _ Hcb Henv Hcur Hc) as [(mkb & v0 & Ev & NS)|(s & i & Ex & _)].
+  (* what is stored does not depend on the previous content: for rArrayICb argue
+     about a previous content inside the char range *)
+  destruct (cb_cur_char k e cb loc cur [event_arg k v] Hcb ltac:(discriminate) Hcur)
+    as (cur' & HchA & Hcur' & Back).
+  destruct (conf_numeric k e cb loc cur' _ Hcb Henv Hcur' HchA Hc) as [(mkb & v0 & Ev & NS)|(s & i & Ex & _)].
   - rewrite arg_val_event_arg in Ev. inversion Ev; subst v0.
     destruct (numeric_clamp _ _ _ _ _ _ _ _ NS) as (o & E).
-    exists o. rewrite E. rewrite (clampK_inside Z (kind_key k) _ _ v Hin). reflexivity.
+    rewrite (clampK_inside Z (kind_key k) _ _ v Hin) in E.
+    destruct (Back _ _ E) as (o' & E'). exists o'. exact E'.
   - destruct k; discriminate.
 Qed.
 
@@ -376,14 +394,15 @@ Proof.
   intros k e cb loc old args st o Hcb Henv Hord Hmap Hc Hold Hloc H.
   destruct (elem_event k e cb loc old args st o Hcb Henv Hord Hmap Hc Hold H) as [Hnew _].
   split; [exact Hnew|]. split; [|split].
-  - destruct Hold as (Hv & _ & _).
+  - destruct Hold as (Hv & _ & Hch).
+    assert (HchA : k = KAI -> char_range old) by (intro EkA; subst k; exact Hch).
     destruct (conforming_shape e k args Hc) as [E|[x E]]; subst args.
     + assert (Q : st = old /\ exists y, o = [Reply (mk loc [y])]).
       { destruct k; inversion Hcb; subst cb; cbn in H; inversion H; subst;
           (split; [reflexivity|eexists; reflexivity]). }
       destruct Q as (Es & y & Eo). subst st o. rewrite Z.eqb_refl.
       unfold undo_events. cbn [filter]. rewrite (is_undo_query loc _ Hloc). reflexivity.
-    + destruct (conf_numeric k e cb loc old x Hcb Henv Hv Hc) as [(mkb & v & _ & NS)|(s & i & Ex & Hs & Ecb & Ek)].
+    + destruct (conf_numeric k e cb loc old x Hcb Henv Hv HchA Hc) as [(mkb & v & _ & NS)|(s & i & Ex & Hs & Ecb & Ek)].
       * destruct (numeric_set_spec _ _ _ _ _ _ _ _ NS) as (res & Er & SP).
         rewrite H in Er. inversion Er; subst res. unfold set_spec in SP. cbv zeta in SP.
         destruct SP as (S1 & S2 & _). cbn [fst snd] in S1, S2. rewrite <- S1 in S2. exact S2.
@@ -518,4 +537,58 @@ Proof.
     rewrite counted_as_option.
     destruct (elem_replay KO e rOptionCb loc x v eq_refl I Vx Hv) as (_ & _ & o & R).
     cbn [event_arg] in *. rewrite R. eexists _, _. reflexivity.
+Qed.
+
+(* ---- further non-vacuity examples ------------------------------------------- *)
+(* rString of length 5 holding "A": "abcdef" is stored as "abcd" *)
+Lemma string_trunc_nonvacuous :
+  1 <= 5 /\ Z.of_nat (length [65; 0; 77; 0; 0]) = 5 /\ nul_free [97; 98; 99; 100; 101; 102] /\
+  rStringCb 5 env_ex [47] [65; 0; 77; 0; 0] [As [97; 98; 99; 100; 101; 102]] =
+    Some ([97; 98; 99; 100; 0], [Bcast (mk [47] [As [97; 98; 99; 100]])]).
+Proof.
+  split; [lia|]. split; [reflexivity|]. split; [repeat constructor; discriminate|reflexivity].
+Qed.
+
+(* the options of env_ex are 0=r 2=b 5=r: the symbol r stores 0 (the first), event (2, 0) *)
+Lemma option_symbol_nonvacuous :
+  symbol_index (p_map env_ex) [114] = Some 0 /\
+  rOptionCb env_ex [47] 2 [ASy [114]] =
+    Some (0, [Reply (mk undo_path [As [47]; Ai 2; Ai 0]); Bcast (mk [47] [Ai 0])]).
+Proof. split; reflexivity. Qed.
+
+(* struct array of two elements (other, on) = (7,0) (8,1); address n1, false: only entry 3 changes *)
+Lemma member_toggle_nonvacuous :
+  p_hash env_arr = true /\ digits_ok [1] /\ starts_nondigit [] /\
+  nth_error [7; 0; 8; 1] (Z.to_nat (2 * digits_val [1] + 1)) = Some 1 /\ arg_T AFalse = Some 0 /\
+  rArrayTCbMember env_arr [47; 110; 49] (array_address env_arr [1] []) [7; 0; 8; 1] [AFalse] =
+    Some ([7; 0; 8; 0], [Bcast (mk [47; 110; 49] [AFalse])]).
+Proof.
+  split; [reflexivity|]. split; [split; [discriminate|repeat constructor; lia]|]. split; [exact I|].
+  split; [reflexivity|]. split; reflexivity.
+Qed.
+
+(* a float port -1.5 .. 2.5 holding 0.5: set 100.0 (stored 2.5), query, set -7.125
+   (stored -1.5): the hypotheses of the history theorems hold for a float kind *)
+Definition env_flt : penv :=
+  {| p_name := [102]; p_hash := false; p_min := Some 3217031168; p_max := Some 1075838976; p_map := [] |}.
+Definition hist_flt : list op :=
+  [ {| op_loc := [47; 102]; op_m := [102]; op_args := [Af 1120403456] |};
+    {| op_loc := [47; 102]; op_m := [102]; op_args := [] |};
+    {| op_loc := [47; 102]; op_m := [102]; op_args := [Af 3236167680] |} ].
+Lemma history_in_range_nonvacuous :
+  numeric_kind KF /\ env_ok env_flt KF /\
+  bounds_ordered (kind_key KF) (p_min env_flt) (p_max env_flt) /\ map_in_range env_flt /\
+  Forall (fun o => conforming env_flt KF (op_args o)) hist_flt /\ stored_ok env_flt KF [1056964608] /\
+  exists outs, run KF env_flt hist_flt [1056964608] = Some ([3217031168], outs) /\
+    undo_pairs outs = [(1056964608, 1075838976); (1075838976, 3217031168)].
+Proof.
+  split; [right; right; left; reflexivity|].
+  split; [split; intros b E; inversion E; reflexivity|].
+  split; [intros lo hi E1 E2; inversion E1; inversion E2; subst; cbn; lia|].
+  split; [constructor|].
+  split; [repeat constructor; reflexivity|].
+  split.
+  { constructor; [|constructor]. split; [reflexivity|].
+    split; intros x E; inversion E; subst; cbn; lia. }
+  eexists. split; reflexivity.
 Qed.
